@@ -63,7 +63,7 @@ def main():
         checks.append({
             "property_id": pid,
             "quick_cmd": f"/verif/bin/govc check -p {pid} -tier quick",
-            "thorough_cmd": f"/verif/bin/govc check -p {pid} -tier thorough",
+            "thorough_cmd": f"/verif/thorough.sh {pid}",
             "evidence_file": f"/verif/evidence/{pid}.json",
             "replay_cmd_template": "/verif/bin/govc replay {path}",
             "engine": "govc",
